@@ -63,6 +63,69 @@ Theorem C12_basic_forwards :
 Proof. exact basic_forwards. Qed.
 Print Assumptions C12_basic_forwards.
 
+(* ---- Bernoulli(p) coins: the one-step laws (law = distribution semantics of Base/Samp.v) ----
+   One pass of discrete_SIR's double loop with the code's default rule (one `random.random() < p`
+   per test; q = p clamped to [0,1]) started from the susceptible-map sus and the infectious
+   nodes us (in ANY iteration order), with or without full data: the probability that the set
+   of newly infected nodes is exactly A is
+        prod over nodes v:  sus v,  v in A      1 - (1-q)^(m_v)
+                            sus v,  v not in A  (1-q)^(m_v)
+                            not sus v           [v not in A]
+   with m_v = number of contacts (u,v), u in us, v neighbour of u  (= number of infectious
+   neighbours of v, C12_contact_count).  This is the Reed-Frost transition probability. *)
+Theorem C12_reedfrost_step_law : forall g p full A, NoDup (gnodes g) ->
+  forall k age us sus nS ql,
+  (forall u v, In u us -> In v (gadj g u) -> In v (gnodes g)) ->
+  prob (new_is g A) (law (cloop (simple_rules p) full k age (contacts g us) (mkC sus [] [] nS ql))) ==
+  prodQ (map (fun v => if sus v
+                       then (if mem v A then 1 - qpow (1 - clamp01 p) (mcount (contacts g us) v)
+                             else qpow (1 - clamp01 p) (mcount (contacts g us) v))
+                       else (if mem v A then 0 else 1)) (gnodes g)).
+Proof. exact reedfrost_step_law. Qed.
+Print Assumptions C12_reedfrost_step_law.
+
+(* the same for one pass of basic_discrete_SIS from the infectious set infs: every node outside
+   infs is infected with probability 1 - (1-q)^(m_v), independently; the nodes of infs are
+   not in the next generation *)
+Theorem C12_sis_step_law : forall g p A, NoDup (gnodes g) ->
+  forall k infs us ql,
+  (forall u v, In u us -> In v (gadj g u) -> In v (gnodes g)) ->
+  prob (sis_new_is g A) (law (sis_cloop (simple_rules p) k infs (contacts g us) [] [] ql)) ==
+  prodQ (map (fun v => if mem v infs then (if mem v A then 0 else 1)
+                       else (if mem v A then 1 - qpow (1 - clamp01 p) (mcount (contacts g us) v)
+                             else qpow (1 - clamp01 p) (mcount (contacts g us) v))) (gnodes g)).
+Proof. exact sis_step_law. Qed.
+Print Assumptions C12_sis_step_law.
+
+Theorem C12_contact_count : forall g us v, (forall u, In u us -> NoDup (gadj g u)) ->
+  mcount (contacts g us) v = length (filter (fun u => mem v (gadj g u)) us).
+Proof. exact mcount_contacts. Qed.
+Print Assumptions C12_contact_count.
+
+(* percolate_network: the probability that the kept edges are exactly those selected by sel is
+   the product over the edges of G of p (kept) resp. 1-p (dropped): independent Bernoulli(p)
+   per edge; the node set is that of G; the result is undirected with exactly the kept edges *)
+Theorem C12_perc_law : forall p sel g, NoDup (gedges g) ->
+  prob (kept_is sel (gedges g)) (law (perc_loop (simple_rules p) (gedges g) [] [])) ==
+  prodQ (map (fun e => if sel e then clamp01 p else 1 - clamp01 p) (gedges g)).
+Proof. exact perc_law. Qed.
+Print Assumptions C12_perc_law.
+
+Theorem C12_perc_graph : forall g p kept,
+  percolate_network g p =
+    bind (perc_loop (simple_rules p) (gedges g) [] []) (fun kq => Ret (perc_graph g (fst kq), snd kq)) /\
+  gnodes (perc_graph g kept) = gnodes g /\
+  (forall x y, In y (gadj (perc_graph g kept) x) <-> In (x, y) kept \/ In (y, x) kept).
+Proof. intros g p kept. split; [apply percolate_unfold|]. split; [apply perc_nodes|]. intros x y. apply perc_adj_In. Qed.
+Print Assumptions C12_perc_graph.
+
+(* perc_sir_once / equality in law of percolation_based_discrete_SIR and basic_discrete_SIR:
+   NOT a Coq theorem here.  The pathwise content (on a common symmetric table of coins both
+   functions return the same rows, histories and transmissions, and no undirected edge is
+   tested twice as an infectious-susceptible contact) is checked dynamically by harness/c12.py
+   on every run (exhaustively on small graphs); equality in law then follows by the principle
+   of deferred decisions (cited, DESIGN section 3 item 7). *)
+
 (* ---- non-vacuity ---- *)
 (* path 0 - 1 - 2 - 3 plus the chord 0 - 2; contact 0->2 fails, node 3 initially recovered *)
 Definition ex_adj (u : node) : list node :=
@@ -81,6 +144,15 @@ Example C12_ex_run :
     map snd (so_rows (o_sim out)) = [[2; 1; 1]; [1; 1; 2]; [0; 1; 3]; [0; 0; 4]]%Z /\
     option_map (fun f => map snd (fd_trans f)) (so_full (o_sim out)) = Some [0; 1; 2]%N.
 Proof. eexists. split; [vm_compute; reflexivity|]. split; vm_compute; reflexivity. Qed.
+(* the law statements are about non-trivial programs: two contacts into node 2 *)
+Example C12_ex_law :
+  prob (new_is ex_g [2%N]) (law (cloop (simple_rules (1#2)) false O (fun _ => O) (contacts ex_g [0; 1]%N)
+                                  (mkC (fun v => N.eqb v 2 || N.eqb v 3) [] [] 2 []))) == 3 # 4.
+Proof. vm_compute. reflexivity. Qed.
+Example C12_ex_edges : gedges ex_g = [(0, 1); (0, 2); (1, 2); (2, 3)]%N /\ NoDup (gedges ex_g).
+Proof. split; [vm_compute; reflexivity|]. apply nodupb_NoDup_pairs. vm_compute. reflexivity. Qed.
 Print Assumptions C12_ex_wf.
 Print Assumptions C12_ex_ord.
 Print Assumptions C12_ex_run.
+Print Assumptions C12_ex_law.
+Print Assumptions C12_ex_edges.
